@@ -275,7 +275,7 @@ pub fn check_c11(case: &Case, st: &mut Stats) -> Verdict {
     let scale = if huge { 1usize << 14 } else { 1 };
     let plan_shared = plan.shared_pos;
     let variants: Vec<(&str, EnvPlan)> = vec![
-        ("chop1", EnvPlan { modes: vec![IoMode::Chop { max: scale }], stream: plan.stream, faults: vec![], crash: None, buffered: !plan.buffered, shared_pos: plan_shared }),
+        ("chop1", EnvPlan { modes: vec![IoMode::Chop { max: scale }], stream: plan.stream, faults: vec![], crash: None, buffered: !plan.buffered, shared_pos: plan_shared, src_start: 0 }),
         ("as-generated", plan.clone()),
         (
             "chop-intr",
@@ -284,7 +284,7 @@ pub fn check_c11(case: &Case, st: &mut Stats) -> Verdict {
                 stream: mix(plan.stream, 77),
                 faults: vec![],
                 crash: None,
-                buffered: plan.stream % 2 == 0, shared_pos: plan_shared,
+                buffered: plan.stream % 2 == 0, shared_pos: plan_shared, src_start: plan.src_start,
             },
         ),
     ];
@@ -296,7 +296,7 @@ pub fn check_c11(case: &Case, st: &mut Stats) -> Verdict {
             stream: mix(plan.stream, 99),
             faults: vec![],
             crash: None,
-            buffered: plan.stream % 3 == 0, shared_pos: plan_shared,
+            buffered: plan.stream % 3 == 0, shared_pos: plan_shared, src_start: plan.src_start,
         },
     ));
     let mut io_opts = RunOpts::default();
@@ -353,15 +353,18 @@ pub fn gen_c12(rng: &mut Rng, tier: Tier) -> Case {
     let env = match rng.below(4) {
         0 => EnvPlan::whole(),
         1 => EnvPlan { buffered: true, ..EnvPlan::whole() },
-        2 => EnvPlan { modes: vec![IoMode::Chop { max: *rng.pick(&[64usize, 4096]) }, IoMode::Whole], stream: rng.next_u64(), faults: vec![], crash: None, buffered: rng.chance(1, 2), shared_pos: false },
-        _ => EnvPlan { modes: vec![IoMode::ChopIntr { max: *rng.pick(&[64usize, 4096]), den: 16 }], stream: rng.next_u64(), faults: vec![], crash: None, buffered: rng.chance(1, 2), shared_pos: false },
+        2 => EnvPlan { modes: vec![IoMode::Chop { max: *rng.pick(&[64usize, 4096]) }, IoMode::Whole], stream: rng.next_u64(), faults: vec![], crash: None, buffered: rng.chance(1, 2), shared_pos: false, src_start: 0 },
+        _ => EnvPlan { modes: vec![IoMode::ChopIntr { max: *rng.pick(&[64usize, 4096]), den: 16 }], stream: rng.next_u64(), faults: vec![], crash: None, buffered: rng.chance(1, 2), shared_pos: false, src_start: 0 },
     };
     with_env(&c, env)
 }
 
 fn judge_fault(recs: &[Rec], fired: &[FiredFault], st: &mut Stats) -> Option<(String, String)> {
+    // a call that returned normally although a component failed inside it is reported as such
+    // even when a later call panics on what that left behind
+    let swallowed = fired.first().and_then(|f| recs.iter().position(|r| r.clock_before < f.k && f.k <= r.clock_after)).map(|i| !recs[i].res.is_err() && !recs[i].res.is_panic()).unwrap_or(false);
     // no panic anywhere, including drops
-    if let Some((i, r)) = recs.iter().enumerate().find(|(_, r)| r.res.is_panic()) {
+    if let Some((i, r)) = recs.iter().enumerate().find(|(_, r)| r.res.is_panic()).filter(|_| !swallowed) {
         let f = fired.first();
         return Some((
             format!("panic-on-fault.{}.{}", r.op, f.map(|f| f.kind.name()).unwrap_or("none")),
@@ -670,7 +673,7 @@ pub fn gen_tiny(rng: &mut Rng) -> Case {
     let env = if rng.chance(1, 2) {
         EnvPlan::whole()
     } else {
-        EnvPlan { modes: vec![IoMode::Chop { max: 64 }], stream: rng.next_u64(), faults: vec![], crash: None, buffered: rng.chance(1, 2), shared_pos: false }
+        EnvPlan { modes: vec![IoMode::Chop { max: 64 }], stream: rng.next_u64(), faults: vec![], crash: None, buffered: rng.chance(1, 2), shared_pos: false, src_start: 0 }
     };
     // codecs are interpreted byte by byte under Miri (64 KiB hash tables per block): mostly None
     let codec = *rng.pick(&[0u8, 0, 0, 0, 0, 0, 0, 1]);
